@@ -360,6 +360,27 @@ class Facts:
                 out.add(c.name)
         return out
 
+    def only_through(self, gates, crate='chess', kinds=('lib', 'bin')):
+        """The gate functions plus every function all of whose call sites (in the analysed crates) already belong to the set: code that
+        only ever runs as part of a gate (a helper the gate's body was split into).  Closures count as part of their parent."""
+        inside = set(gates)
+        changed = True
+        while changed:
+            changed = False
+            for name, f in self.fns.items():
+                if name in inside or f.crate != crate:
+                    continue
+                if f.kind == 'Closure':
+                    if f.closure_of in inside:
+                        inside.add(name)
+                        changed = True
+                    continue
+                callers = {(c.closure_of or c.name) for c, _ in self.call_sites(name, crate=crate, kinds=kinds)}
+                if callers and callers <= inside:
+                    inside.add(name)
+                    changed = True
+        return inside
+
     def reachable_fns(self, roots, stop=()):
         seen = set()
         st = list(roots)
